@@ -2,8 +2,9 @@
         (self.content != 0 ==> fsm_blocks(fsm).contains_key(self.content)) && (self.else_content != 0 ==> fsm_blocks(fsm).contains_key(self.else_content))
     }
 
-    /// <if>: the condition is evaluated exactly once, first; an evaluation error counts as false; exactly the chosen
-    /// branch runs (block semantics: document order, abort at the first failing element)
+    /// <if>: the condition is evaluated exactly once, first; an evaluation error places error.execution on the internal
+    /// queue and counts as false; exactly the chosen branch runs (block semantics: document order, abort at the first
+    /// failing element)
     open spec fn sem(&self, fsm: &Fsm, l0: Seq<Ev>, l1: Seq<Ev>, r: bool) -> bool {
-        exists|c: Option<bool>| opt_block_sem(fsm, if c == Some(true) { self.content } else { self.else_content }, #[trigger] l0.push(Ev::Cond(self.condition, c)), l1, r)
+        exists|c: Option<bool>| opt_block_sem(fsm, if c == Some(true) { self.content } else { self.else_content }, #[trigger] after_cond(l0, self.condition, c), l1, r)
     }
